@@ -64,6 +64,13 @@ class P(EngProp):
                 return {"k": "filter", "p": {"k": "m", "l": m["l"], "op": op, "v": m["v"]}, "coq": "ELabelFilter (EPMatch %s %s)" % (cbytes(B(m["l"])), sm)}
 
             f, gg = (g.ip_line_filter(v6=0.7) if v6 else a_filter()), a_filter()
+            if not v6 and rng.random() < 0.15:
+                f = g.ip_line_filter()
+            if f.get("ip") and not v6 and rng.random() < 0.7:
+                # the plain filter with the SAME operator and the SAME text as the ip() filter is another filter: neither makes the other redundant
+                gg = g.line_filter(op=f["op"], needle=f["v"])
+                for r in recs[:3]:
+                    r["line"] = B(rng.choice(["peer %s0 connected", "%s.5 is no address", "x%sx", "%s"]) % f["v"].split("/")[0].split("-")[0])
             nf = negate(f)
             pa = g.pred(labels, depth=1, pure=True)
             pb = g.pred(labels, depth=1, pure=True)
